@@ -30,16 +30,22 @@ Definition model_idx (A B : option Z) (ts : list Z) : list N :=
 Definition model_idx_old (A B : option Z) (ts : list Z) : list N :=
   map idx_of (journal_run ref_seek_head ref_seek_realtime stop_at_or_after A B (mk_journal ts)).
 
-(* case = (A, B, indices the binary printed); code 1: model <> impl, 2: spec <> impl, 3: both *)
-Definition window_bad (ts : list Z) (cs : list (option Z * option Z * list N)) : list (N * N) :=
-  flat_map (fun ic => let '(i, (A, B, impl)) := ic in
+(* the binary's index list is written as runs (first index, length) *)
+Fixpoint run_from (i : N) (n : nat) : list N :=
+  match n with O => [] | S n' => i :: run_from (i + 1) n' end.
+Definition expand (rs : list (N * N)) : list N :=
+  flat_map (fun r => run_from (fst r) (N.to_nat (snd r))) rs.
+
+(* case = (A, B, indices the binary printed, as runs)
+   code bit 1: model <> impl, bit 2: spec <> impl, bit 4: the model with the OLD stop test <> impl
+   (bit 4 alone is expected on sharp windows: evidence that they separate old from repaired) *)
+Definition window_bad (ts : list Z) (cs : list (option Z * option Z * list (N * N))) : list (N * N) :=
+  flat_map (fun ic => let '(i, (A, B, runs)) := ic in
+                      let impl := expand runs in
                       let m := if eq_listN (model_idx A B ts) impl then 0 else 1 in
                       let s := if eq_listN (window_idx A B ts) impl then 0 else 2 in
-                      if m + s =? 0 then [] else [(i, m + s)]) (index_from 0 cs).
-(* how many cases the old stop test would get wrong (evidence that the windows are sharp) *)
-Definition window_old_differs (ts : list Z) (cs : list (option Z * option Z * list N)) : list (N * N) :=
-  flat_map (fun ic => let '(i, (A, B, impl)) := ic in
-                      if eq_listN (model_idx_old A B ts) impl then [] else [(i, 1)]) (index_from 0 cs).
+                      let o := if eq_listN (model_idx_old A B ts) impl then 0 else 4 in
+                      if m + s + o =? 0 then [] else [(i, m + s + o)]) (index_from 0 cs).
 Definition times_sorted (ts : list Z) : bool := nondecreasingb ts.
 
 (* ---- export tie *)
@@ -60,7 +66,8 @@ Fixpoint beq_entries (a b : list (list field)) : bool :=
   end.
 
 (* case = (time, cursor, mono, fields, bytes the binary printed for that entry)
-   code 1: render_export e <> impl; 2: parse_export impl <> [export_fields e]; 3: both *)
+   code bit 1: render_export e <> impl; bit 2: parse_export impl <> [export_fields e];
+   bit 4: the printer before the repair (text only) <> impl (expected on entries with a non-text value) *)
 Definition export_bad (cs : list (Z * string * option N * list (string * string) * string)) : list (N * N) :=
   flat_map (fun ic => let '(i, (t, cur, mono, fs, impl)) := ic in
                       let e := mkEntry t (unhex cur) mono (unhex_fields fs) in
@@ -70,12 +77,8 @@ Definition export_bad (cs : list (Z * string * option N * list (string * string)
                                | POk es => if beq_entries es [export_fields e] then 0 else 2
                                | _ => 2
                                end in
-                      if m + p =? 0 then [] else [(i, m + p)]) (index_from 0 cs).
-(* same entries through the printer before the repair: which cases it gets wrong *)
-Definition export_old_differs (cs : list (Z * string * option N * list (string * string) * string)) : list (N * N) :=
-  flat_map (fun ic => let '(i, (t, cur, mono, fs, impl)) := ic in
-                      let e := mkEntry t (unhex cur) mono (unhex_fields fs) in
-                      if beqb (render_export_textonly e) (unhex impl) then [] else [(i, 1)]) (index_from 0 cs).
+                      let o := if beqb (render_export_textonly e) b then 0 else 4 in
+                      if m + p + o =? 0 then [] else [(i, m + p + o)]) (index_from 0 cs).
 
 (* cat: case = (fields, bytes printed) *)
 Definition cat_bad (cs : list (list (string * string) * string)) : list (N * N) :=
